@@ -25,6 +25,7 @@ var Styles = []string{"csv", "html", "json", "markdown", "ascii-simple", "none",
 //	setprop  a user property (private key type) on Owner
 //	mutate   change a mutable item behind its cell's back and call Cell.Update() (Op carries the gen "mutate" operation);
 //	         from then on the table's content is the mutated one
+//	copycell add a by-value copy of an existing (already measured) cell to a row (Op carries the gen "copycell" operation)
 //	faulty   render in Style into a writer that fails at write FaultK in mode FaultMode (the render must fail);
 //	         the wrapper (reused or fresh) and the table must be none the worse for it
 type Act struct {
@@ -268,7 +269,7 @@ func CheckCase(c Case) *ev.Violation {
 			ref.key = userKey(mod(a.Key, 4))
 			po.SetProperty(ref.key, seq)
 			w.props[ref] = seq
-		case "mutate":
+		case "mutate", "copycell":
 			if a.Op == nil {
 				continue
 			}
@@ -277,6 +278,12 @@ func CheckCase(c Case) *ev.Violation {
 			if m.Noops == before {
 				extra = append(extra, *a.Op)
 				refs = map[string]ref{}
+				// the content changed on purpose: new baseline for the counts; settings reach new columns too
+				settings(t, c)
+				w.nrows = len(m.Rows)
+				if m.MaxEver > w.ncols {
+					w.ncols = m.MaxEver
+				}
 			}
 		case "faulty":
 			var rw auto.RenderTable
